@@ -100,6 +100,7 @@ class Link(base.BaseObject):
         :param new: the vertex to add to the link
         """
         self._vertices.append(new)
+        self._invalidate_ends()
         if (new is not None) and (self not in new.links):
             new.add_to_link(self)
 
@@ -114,6 +115,7 @@ class Link(base.BaseObject):
         :param kill: the vertex to unlink
         """
         if kill in self._vertices:
+            self._invalidate_ends()
             if kill is None:
                 self._vertices.remove(kill)
             else:
@@ -121,3 +123,18 @@ class Link(base.BaseObject):
                 # drop every occurrence so the vertex and the link agree
                 self._vertices = [v for v in self._vertices if v is not kill]
                 kill.remove_from_link(self)
+
+    def _invalidate_ends(self):
+        """
+        Invalidate the neighbor cache of every vertex this link lists.
+
+        **FOR INTERNAL USE ONLY!!**
+
+        The neighbors of a vertex depend on the other ends of its links, so
+        this must be called whenever the list of vertices of this link changes
+        -- the vertex being added or removed is not the only one affected.
+        """
+        for vert in self._vertices:
+            if vert is not None:
+                # pylint: disable-next=protected-access
+                vert._qa_neighbors_invalidate()
